@@ -126,6 +126,24 @@ M = [
  ('py_pretty_load_wrong_index', 'C19', PY + 'pretty_printing_interpreter.py', '''        self.out.write(str(self.memory.index(term)))''', '''        self.out.write(str(len(self.memory) - 1))'''),
  ('py_pretty_generalization_no_var', 'C19', PY + 'pretty_printing_interpreter.py', '''        self.out.write(f'Generalization {var.name}')''', '''        self.out.write('Generalization 0')'''),
  ('py_notation_and_drops_arg', 'C19', PY + 'pattern.py', """'({0} ⋀ {1})')""", """'({0} ⋀ {0})')"""),
+ # ---------------- K traces (C20)
+ ('k_chain_assert_dropped', 'C20', PY + 'k/execution_proof_generation.py', '''        assert (
+            lhs == self.current_configuration
+        ), f''', '''        assert (
+            True or lhs == self.current_configuration
+        ), f'''),
+ ('k_curr_config_is_lhs', 'C20', PY + 'k/execution_proof_generation.py', '''        self._curr_config = rhs''', '''        self._curr_config = lhs'''),
+ ('k_claim_is_rule_not_instance', 'C20', PY + 'k/execution_proof_generation.py', '''        self.add_claim(instantiated_axiom)''', '''        self.add_claim(rule.pattern)'''),
+ ('k_metavar_numbering_collides', 'C20', PY + 'k/kore_convertion/language_semantics.py', '''            self._metavars[name] = MetaVar(name=len(self._metavars))''', '''            self._metavars[name] = MetaVar(name=max(0, len(self._metavars) - 1))'''),
+ # ---------------- interpreters (C08)
+ ('py_transformer_gen_not_delegated', 'C08', PY + 'interpreter_transformer.py', '''        ret = self.sub_interpreter.exists_generalization(proved, var)
+        return ret''', '''        from proof_generation.basic_interpreter import BasicInterpreter
+        ret = BasicInterpreter(self.phase).exists_generalization(proved, var)
+        return ret'''),
+ ('py_dynamic_inst_writes_back_simplified', 'C18', PY + 'proof.py', '''            for idn, p in delta.items():
+                delta[idn] = interpreter.pattern(p)''', '''            for idn, p in delta.items():
+                q = interpreter.pattern(p)
+                delta[idn] = q.simplify() if hasattr(q, 'simplify') else q'''),
  # ---------------- determinism (C18)
  ('py_claims_via_set', 'C18', PY + 'proof.py', '''        claims = [Claim(claim) for claim in self._claims]
         serializer''', '''        claims = [Claim(claim) for claim in self._claims]
